@@ -314,6 +314,12 @@ func init() {
 			tup(tup(mapOf(cty.Number, "n", N(1))), setOf(cty.String, S("s"))),
 			listOf(cty.List(cty.Map(cty.Bool)), listOf(cty.Map(cty.Bool), mapOf(cty.Bool, "t", cty.True))),
 			tup(cty.NullVal(cty.Map(cty.String)), listOf(cty.String)),
+			// null sequences as members (passed through as single elements, not spliced)
+			tup(listOf(cty.String, S("a")), cty.NullVal(cty.Tuple([]cty.Type{cty.String, cty.String}))),
+			tup(cty.NullVal(cty.List(cty.String)), S("x")),
+			tup(cty.NullVal(cty.EmptyTuple), cty.NullVal(cty.Set(cty.Number))),
+			listOf(cty.List(cty.String), cty.NullVal(cty.List(cty.String)), listOf(cty.String, S("a"))),
+			tup(tup(cty.NullVal(cty.Tuple([]cty.Type{cty.Number})), N(1))),
 		})
 	})
 	add("keys", stdlib.KeysFunc, nil)
